@@ -53,7 +53,8 @@ impl AdjustHeightsHeap {
         }
         debug_assert!(self.is_empty());
         debug_assert_eq!(calculate_len(&self.queues), 0);
-        self.queues.resize(new_mha, VecDeque::new());
+        // one queue per admissible height 0..=new_mha, as in `new`
+        self.queues.resize(new_mha + 1, VecDeque::new());
     }
     pub(crate) fn add_unless_mem(&mut self, node: NodeRef) {
         if node.height_in_adjust_heights_heap().get() == -1 {
